@@ -270,8 +270,17 @@ func init() {
 		mode := in.concreteInt(termArg(in, a[2]), "vEncodeDoc mode")
 		enc := smt.NewVar(symName(name), smt.KStr, 0)
 		ir := in.addInput(name, "encoded-doc", enc)
-		in.Assume(B64OK("std", enc))
-		raw := B64D("std", enc)
+		var raw *smt.Term
+		if mode == 3 {
+			// base64 whose '=' padding was stripped: not valid for StdEncoding, valid for RawStdEncoding
+			in.Assume(smt.And(smt.Not(B64OK("std", enc)), B64OK("rawstd", enc)))
+			raw = B64D("rawstd", enc)
+			mode = 0
+			in.Ghost["choice:"+name+".unpadded"] = 1
+		} else {
+			in.Assume(B64OK("std", enc))
+			raw = B64D("std", enc)
+		}
 		d := &boundDoc{Name: name}
 		if root != nil {
 			d.Root = in.elemCopy(root)
